@@ -1,6 +1,7 @@
 import O4.Lemmas.Alias
 import O4.Lemmas.Drbg
 import O4.Generated.Consts.Probdist
+import O4.Generated.Facts.Probdist
 import Mathlib.Algebra.Order.Field.Rat
 import Mathlib.Tactic.NormNum
 /-!
@@ -191,5 +192,21 @@ theorem drbg_is_ofb (seed : Bytes) (n : Nat) :
 /-- non-vacuity / test vector: the first block for the all-zero seed -/
 example : (Drbg.newHashDrbg (Bytes.zeros 24)).blocks 1 =
     [Crypto.SipHash.leBytes (Crypto.sipHash24 0 0 (Bytes.zeros 8))] := by decide +kernel
+
+/-- **`Sample` and `Reset` are atomic with respect to each other** (structural fact regenerated
+    from `common/probdist` by the go/ast extractor on every run): both bracket their whole body
+    with `w.Lock(); defer w.Unlock()` and neither touches a table field before taking the lock —
+    in particular the die is sized from `len(w.values)` *under* the lock.  This is what lets the
+    sequential theorems above (`sample_in_table`: the die is below the size of the table the coin
+    and alias are looked up in) speak about a `Sample` that runs while another goroutine
+    `Reset`s the object; goroutine scheduling itself is outside the theorem and is sampled by
+    the concurrent Reset/Sample family of the harness. -/
+theorem sample_reset_under_mutex :
+    Facts.Probdist.WeightedDist_Sample_locked = true ∧
+    Facts.Probdist.WeightedDist_Sample_prelock = [] ∧
+    Facts.Probdist.WeightedDist_Reset_locked = true ∧
+    Facts.Probdist.WeightedDist_Reset_prelock = [] ∧
+    Facts.Probdist.WeightedDist_Sample_fields ⊆ Facts.Probdist.WeightedDist_Reset_fields := by
+  decide
 
 end C12
